@@ -6,7 +6,7 @@ from typing import Dict, List
 
 import sympy as sp
 
-from ..astutil import call_name, calls_in, own_nodes, unparse, kwarg
+from ..astutil import bind_call, call_name, calls_in, own_nodes, unparse, kwarg
 from ..cfg import cfg_of
 from ..dataflow import reaching
 from ..expr import Translator, equal, forward_substitute, degree
@@ -301,7 +301,19 @@ def _r4(ck: Checker, prog: Program):
 
     def hook(call, T):
         nm = call_name(call)
-        if isinstance(call.func, ast.Name) and nm in ("_remove_instrument_response", "_differentiate", "setattr"):
+        if isinstance(call.func, ast.Name) and nm in ("_remove_instrument_response", "_differentiate"):
+            # by role, whatever the order / keyword style of the helper's signature: (series, [transfer function,] fft settings)
+            g = prog.func(f"instrument_response.{nm}")
+            names = list(g.params) + [k for k in g.kwonly if k not in g.params]
+            b = bind_call(call, names)
+            role = {}
+            for p_ in names[1:]:
+                role["fft" if "fft" in p_ else "itf" if ("transfer" in p_ or "response" in p_) else p_] = p_
+            order = [names[0]] + ([role["itf"]] if nm == "_remove_instrument_response" and "itf" in role else []) + ([role["fft"]] if "fft" in role else [])
+            if len(order) != len(names) or any(p_ not in b for p_ in order) or any(isinstance(a_, ast.Starred) for a_ in call.args):
+                raise AnalysisError(f"{q}: the arguments of {nm} could not be matched with its parameters {names}")
+            return F(nm)(*[T.tr(b[p_]) for p_ in order])
+        if isinstance(call.func, ast.Name) and nm == "setattr":
             return F(nm)(*[T.tr(a_) for a_ in call.args], *[F("kw_" + k.arg)(T.tr(k.value)) for k in call.keywords if k.arg])
         if isinstance(call.func, ast.Attribute) and nm in ("detrend", "window", "butterworth_filter", "orient_sensor_to", "split"):
             return F(nm)(T.tr(call.func.value), *[T.tr(a_) for a_ in call.args], *[F("kw_" + k.arg)(T.tr(k.value)) for k in call.keywords if k.arg])
@@ -345,6 +357,9 @@ def _r4(ck: Checker, prog: Program):
                                 call_ = F("_differentiate")(comp(c), FFT)
                                 want.append(call_)
                                 want.append(F("setattr")(REC, sp.Symbol(f"'{c}'"), call_))
+                        if wl == NONE and det not in (NONE, sp.Symbol("'none'")):
+                            # no splitting: the record itself is the only window, and it is detrended as one
+                            want.append(F("detrend")(REC, F("kw_type")(det)))
                         for r in rows:
                             got = []
                             for e in r["events"]:
@@ -360,6 +375,10 @@ def _r4(ck: Checker, prog: Program):
                                     seq.append(v.args[2])
                                 seq.append(v)
                             seq = [x for x in seq if x.func.__name__ != "split" and not (x.func.__name__ == "detrend" and x.args[0] != REC)]
+                            final_opaque = wl == NONE and det not in (NONE, sp.Symbol("'none'")) and len(seq) == len(want) - 1 and \
+                                any(e[0] == "loop" and any(isinstance(x_, ast.Attribute) and x_.attr == "detrend" for x_ in ast.walk(e[3])) for e in r["events"])
+                            if final_opaque:
+                                want = want[:-1]        # the per-window detrend sits in a loop over a list that is not a display here (checked by C10)
                             ok = len(seq) == len(want)
                             if ok:
                                 for g_, w_ in zip(seq, want):
